@@ -96,20 +96,33 @@ def go_ref(ssx, y):
     return val, dict(wdiff=wdiff, lds=np.linalg.slogdet(S)[1], ldp=np.linalg.slogdet(psi)[1])
 
 
-def lik_case(ctx, rng, reqs, meta):
+def lik_case(ctx, rng, reqs, meta, forced=None):
     d = rng.randint(1, 4)
     n = rng.randint(d + 5, 40)
+    scale = 1.0
+    if rng.random() < .12:                       # many summaries on a very small / very large scale: determinants leave the double range,
+        d = rng.choice([20, 30])                  # their logarithms do not
+        n = d + rng.randint(10, 60)
+        scale = rng.choice([1e-8, 1e5, 1e5])
+    if forced:
+        d, scale = forced['d'], forced['scale']
+        n = d + rng.randint(10, 60)
     rs = np.random.RandomState(rng.randrange(2**31))
     A = rs.randn(d, d) * rng.choice([0.3, 1.0]) + np.eye(d)
-    ssx = rs.randn(n, d) @ A.T + rs.randn(d)
+    ssx = (rs.randn(n, d) @ A.T + rs.randn(d)) * scale
     far = rng.random() < .3
     if rng.random() < .3:
         ssx = np.asfortranarray(ssx) if rng.random() < .5 else np.ascontiguousarray(ssx[:, ::-1])[:, ::-1]     # same values, other memory layout / a strided view
-    y = ssx.mean(0) + (rng.choice([3.0, 8.0]) if far else 0.3) * rs.randn(d)
+    y = ssx.mean(0) + (rng.choice([3.0, 8.0]) if far else 0.3) * rs.randn(d) * scale
     kind = rng.choice(['standard', 'standard-whiten', 'standard-warton', 'unbiased', 'unbiased', 'mean', 'variance'])
+    if forced:
+        kind, far = forced['kind'], False
     if kind == 'standard-whiten' and d == 1:
         kind = 'standard'             # a 1x1 whitening matrix is not a meaningful setting (np.squeeze makes the observation 0-d)
-    case = dict(part='likelihood', kind=kind, n=n, d=d, far=far, seed=int(rs.randint(2**31)))
+    if scale != 1.0 and kind in ('standard-whiten', 'standard-warton'):
+        kind = 'standard'
+    case = dict(part='likelihood', kind=kind, n=n, d=d, far=far, scale=scale, seed=int(rs.randint(2**31)))
+    ctx.count('likelihood.scale', '%g' % scale)
     ctx.case(case, d >= 2)
     ctx.count('likelihood.kind', kind)
     ctx.count('likelihood.d', d)
@@ -550,6 +563,11 @@ def drive(ctx, reqs, meta):
 def process(ctx, n_lik, n_tr, n_ratio, n_chain):
     rng = ctx.rng
     reqs, meta = [], []
+    # 30 summaries on a very large / very small scale: det((n-1) Sigma) is ~1e350 / ~1e-430, its logarithm is an ordinary number
+    for fz in (dict(kind='unbiased', d=30, scale=1e5), dict(kind='unbiased', d=30, scale=1e-8), dict(kind='standard', d=30, scale=1e5),
+               dict(kind='variance', d=30, scale=1e-8)):
+        if not ctx.enough():
+            lik_case(ctx, rng, reqs, meta, forced=fz)
     for fn, n in ((lik_case, n_lik), (transform_case, n_tr), (ratio_case, n_ratio)):
         for _ in range(n):
             if ctx.enough():
